@@ -118,6 +118,8 @@ type Verdict struct {
 	CloseAt    int      // index of the (legal) close frame, -1
 	Open       bool     // a fragmented message is incomplete at the end
 	EmptyMsgs  int      // complete data messages with an empty payload among Events
+	OffMsg     []byte   // offender is a data frame: the (raw) message bytes assembled up to and including it
+	OffInMsg   bool     // offender is a data frame
 }
 
 // Legal reports whether no frame is forbidden.
@@ -144,6 +146,16 @@ func Judge(frames []Frame, r Rules) *Verdict {
 	bad := func(i int, why string) *Verdict {
 		v.Offender, v.Reason = i, why
 		v.Open = inMsg
+		if f := &frames[i]; !f.IsControl() {
+			v.OffInMsg = true
+			if why == "bad-utf8" || why == "bad-deflate" {
+				v.OffMsg = append([]byte{}, mBuf...) // the payload was already appended
+			} else if f.Op == OpCont || !inMsg {
+				v.OffMsg = append(append([]byte{}, mBuf...), f.Payload...)
+			} else {
+				v.OffMsg = append([]byte{}, f.Payload...)
+			}
+		}
 		return v
 	}
 	for i := range frames {
